@@ -69,13 +69,11 @@ Definition hq_init (evs : list event) : hq := fold_left (fun h e => hq_push e h)
    Proofs/ResumeHeap.v next to C11's is_heap *)
 
 (* ---- the class of simulations for which the resume theorem holds at full strength ----
-   a decidable condition on the initial event list: timestamps are not negative, every event is of
-   a type whose processing sets _resolve (Plugin / Unplug / Recompute: computed from the regenerated
-   _process_event; not the base class Event), and a session to be plugged in leaves after the
-   period in which it is plugged in (timestamp < ev.departure). *)
+   a decidable condition on the initial event list: timestamps are not negative, and a session to
+   be plugged in leaves after the period in which it is plugged in (timestamp < ev.departure).
+   Any event type is allowed, including the untyped base class Event. *)
 Definition event_ok (e : event) : bool :=
-  Z.leb 0 (e_ts e) && sets_resolve (e_type e)
-  && (negb (pushes_unplug (e_type e)) || Z.ltb (e_ts e) (e_dep e)).
+  Z.leb 0 (e_ts e) && (negb (pushes_unplug (e_type e)) || Z.ltb (e_ts e) (e_dep e)).
 Definition history_ok (evs : list event) : bool := forallb event_ok evs.
 
 (* Simulator(network, scheduler, EventQueue(events), ...) before the first run(), any rest of state *)
